@@ -2,6 +2,7 @@ package decoder
 
 import (
 	"bytes"
+	"sync"
 
 	insaneJSON "github.com/ozontech/insane-json"
 
@@ -301,6 +302,9 @@ func VerifH_C12_csvFidelity() {
 			line = append(line, 'q')
 			want[0] = "q"
 		}
+		if vf.Choose(tag+"-crlf", 2) == 1 {
+			line = append(line, '\r')
+		}
 		line = append(line, '\n')
 		return line, want
 	}
@@ -525,4 +529,83 @@ func verifStrictJSON(b []byte) bool {
 	}
 	ws()
 	return i == len(b)
+}
+
+// C12: RFC 5424 fidelity: a well-formed line built from parts (structured-data values with spaces,
+// '=' and escaped quotes inside the quotes) decodes to exactly those parts.
+func VerifH_C12_syslog5424Fidelity() {
+	values := []string{`3`, `a=b`, `x=`, `a b`, `u?p=1&q=2`, `q\"r`, `e\]f`} // RFC 5424: '"', '\' and ']' are escaped inside a value
+	hosts := []string{"host", "-"}
+	v1 := values[vf.Choose("value1", len(values))]
+	nparams := 1 + vf.Choose("params", 2)
+	sd := `[ex@1 k1="` + v1 + `"`
+	v2 := ""
+	if nparams == 2 {
+		v2 = values[vf.Choose("value2", len(values))]
+		sd += ` k2="` + v2 + `"`
+	}
+	sd += `]`
+	if vf.Choose("no-sd", 4) == 3 {
+		sd = "-"
+	}
+	host := hosts[vf.Choose("host", 2)]
+	msg := []string{"an event", ""}[vf.Choose("message", 2)]
+	line := `<165>1 2003-10-11T22:14:15.003Z ` + host + ` app 10 ID47 ` + sd
+	if msg != "" {
+		line += " " + msg
+	}
+	d := &syslogRFC5424Decoder{params: syslogParams{facilityFormat: spfNumber, severityFormat: spfNumber}}
+	rowAny, err := d.Decode([]byte(line))
+	if vf.Param("twin", 0) == 1 {
+		vf.Assert(err != nil, "syslog5424-valid-line-decodes")
+		return
+	}
+	vf.Assert(err == nil, "syslog5424-valid-line-decodes")
+	if err != nil {
+		return
+	}
+	row := rowAny.(SyslogRFC5424Row)
+	vf.Assert(string(row.AppName) == "app" && string(row.ProcID) == "10" && string(row.MsgID) == "ID47" && string(row.Message) == msg, "syslog5424-header-and-message")
+	if sd != "-" {
+		ps := row.StructuredData["ex@1"]
+		ok := ps != nil && string(ps["k1"]) == v1 && len(ps) == nparams
+		if nparams == 2 {
+			ok = ok && string(ps["k2"]) == v2
+		}
+		vf.Assert(ok, "syslog5424-structured-data-as-written")
+		vf.Reach("sd-decoded")
+	}
+}
+
+// C12: several json_max_fields_size limits, several documents through the SAME decoder: every document
+// is cut on its own (no cut position of an earlier document is applied to a later one).
+func VerifH_C12_jsonMaxFieldsSequence() {
+	d := &jsonDecoder{params: jsonParams{maxFieldsSize: map[string]int{"f": 3, "g": 2}}, cutPositions: make([]jsonCutPos, 0, 2), mu: &sync.Mutex{}} // as NewJsonDecoder builds it
+	docs := []struct{ doc, f, g string }{
+		{`{"f":"abcdef","g":"x","h":1}`, "abc", "x"},       // one cut
+		{`{"f":"ab","g":"y","h":2}`, "ab", "y"},            // no cut
+		{`{"h":3}`, "", ""},                                // short, no limited field
+		{`{"f":"abcdef","g":"uvwxyz","h":4}`, "abc", "uv"}, // two cuts
+		{`{"g":"uvw","f":"a","h":5}`, "a", "uv"},           // one cut, other order
+	}
+	n := 2 + vf.Choose("documents", vf.Param("D", 2))
+	for i := 0; i < n; i++ {
+		k := vf.Choose("document", len(docs))
+		buf := append([]byte(docs[k].doc), "XY"...)
+		line := buf[:len(docs[k].doc):len(buf)]
+		root := insaneJSON.Spawn()
+		err := d.DecodeToJson(root, line)
+		if vf.Param("twin", 0) == 1 {
+			vf.Assert(err != nil, "twin")
+			return
+		}
+		vf.Assert(err == nil, "limited-document-is-valid-json")
+		vf.Assert(string(buf[len(docs[k].doc):]) == "XY", "no-write-past-the-line")
+		if err != nil {
+			return
+		}
+		vf.Assert(root.Dig("f").AsString() == docs[k].f && root.Dig("g").AsString() == docs[k].g, "fields-cut-to-their-own-limits")
+		vf.Assert(root.Dig("h").AsInt() == i*0+[]int{1, 2, 3, 4, 5}[k], "other-fields-untouched")
+	}
+	vf.Reach("sequence-decoded")
 }
